@@ -359,7 +359,12 @@ def register(M):
 
     @ext('builtins.zip')
     def _zip(interp, args, kw, node):
-        return list(zip(*[interp.iterate(a, node) for a in args]))
+        seqs = [interp.iterate(a, node) for a in args]
+        if set(kw) - {'strict'}:
+            raise AnalysisError('zip() keyword not modelled', node)
+        if kw.get('strict') is True and len({len(x) for x in seqs}) > 1:
+            raise AbsRaise(ExcVal('ValueError', ('zip() arguments have different lengths',)), node)
+        return list(zip(*seqs))
 
     @ext('builtins.enumerate')
     def _enum(interp, args, kw, node):
@@ -500,6 +505,28 @@ def register(M):
         v, c = args
         cs = c if isinstance(c, tuple) else (c,)
         return any(isinstance_abs(interp, v, x, node) for x in cs)
+
+    @ext('builtins.issubclass')
+    def _issubclass(interp, args, kw, node):
+        c, ps = args
+        ps = ps if isinstance(ps, tuple) else (ps,)
+        for p_ in ps:
+            if isinstance(c, ClassVal) and isinstance(p_, ClassVal):
+                if c.is_subclass(p_):
+                    return True
+            elif isinstance(c, ExcType) and isinstance(p_, ExcType):
+                if interp_exc_isa(c.tname, p_.tname):
+                    return True
+            elif isinstance(c, ClassVal) and isinstance(p_, ExcType):
+                if interp.class_is_exception(c) and interp_exc_isa(interp.exception_base_name(c), p_.tname):
+                    return True
+            elif isinstance(c, ExtRef) and isinstance(p_, ExtRef) and c.path == p_.path:
+                return True
+            elif isinstance(p_, ExtRef) and p_.path == 'builtins.object':
+                return True
+            else:
+                raise AnalysisError(f'issubclass({c!r}, {p_!r}) not modelled', node)
+        return False
 
     @ext('builtins.super')
     def _super(interp, args, kw, node):
